@@ -75,7 +75,13 @@ Clauses(pre, e, post) == [
         => /\ post.pipe # e.p /\ post.pipe_fp # e.p,
   C06_ReapplyChangesNothing |->
       (e.op = "apply" /\ e.streq /\ Ok(e) /\ Sane(pre) /\ ~Rejectable(e))
-        => LibPart(post) = LibPart(pre),
+        => IF e.details
+           THEN \* (the pipeline is re-run for its details: results may be
+                \* dropped and an axis setting whose column does not exist
+                \* is forgotten; the data part stays)
+                /\ post.pipe = pre.pipe /\ post.pipe_fp = pre.pipe_fp
+                /\ post.data = pre.data
+           ELSE LibPart(post) = LibPart(pre),
   C06_OnlyPreChangesData |->
       (~PreRequest(e) /\ ~e.orphan /\ e.op # "extwrite")
         => post.data = pre.data /\ post.pipe = pre.pipe,
